@@ -79,6 +79,17 @@ func flatten(v ssa.Value, pol bool, out *[]string) {
 					op = token.LSS
 				}
 			}
+			// a length is never negative: `len(x) < 1` is `len(x) == 0`, `1 <= len(x)` is `0 < len(x)`
+			// (and `len(x) <= 0` is `len(x) == 0`): one canonical form, so that the rewrite is not a new fact
+			if op == token.LSS && b == "1" && strings.HasPrefix(a, "len(") {
+				*out = append(*out, "eq("+a+",0)")
+				return
+			}
+			if op == token.LEQ && a == "1" && strings.HasPrefix(b, "len(") {
+				*out = append(*out, "!eq("+b+",0)")
+				*out = append(*out, "lt(0,"+b+")")
+				return
+			}
 			if op == token.LSS {
 				*out = append(*out, "lt("+a+","+b+")")
 			} else {
@@ -468,8 +479,45 @@ func Precedes(a, b ssa.Instruction) bool {
 // by searching for a path that avoids all such edges; the offending path
 // (block indices) is returned when one exists.
 func EveryPathHas(in ssa.Instruction, pats ...string) (ok bool, trace []int) {
-	return EveryPathFromHas(in.Parent().Blocks[0], in.Block(), pats...)
+	ok, trace = EveryPathFromHas(in.Parent().Blocks[0], in.Block(), pats...)
+	if ok || len(newHelpers) == 0 {
+		return ok, trace
+	}
+	// inside a transparent helper: what the helper itself does not establish may have been
+	// established by its caller before the call (a function split into helpers called in sequence)
+	top := in.Parent()
+	for top.Parent() != nil {
+		top = top.Parent()
+	}
+	hi := newHelpers[top]
+	if hi == nil || everyPathDepth > 3 {
+		return ok, trace
+	}
+	everyPathDepth++
+	defer func() { everyPathDepth-- }()
+	for _, s := range hi.sites {
+		si := s.(ssa.Instruction)
+		okSite := false
+		// a dominating fact at the call site ...
+		for _, p := range pats {
+			for _, alt := range strings.Split(p, " || ") {
+				if HasFact(FactsAt(si), alt) {
+					okSite = true
+				}
+			}
+		}
+		// ... or every path to the call site
+		if !okSite {
+			okSite, _ = EveryPathHas(si, pats...)
+		}
+		if !okSite {
+			return false, trace
+		}
+	}
+	return true, nil
 }
+
+var everyPathDepth int
 
 // EveryPathFromHas is EveryPathHas for paths that start at block `start`
 // (e.g. a loop body entry) and end on entry to block `target`.
@@ -590,6 +638,17 @@ type Loop struct {
 
 // Loops lists the natural loops of fn (one per header).
 func Loops(fn *ssa.Function) []Loop {
+	out := loopsOwn(fn)
+	// the loops of transparent helpers belong to their owner (a function split into helpers keeps its loops)
+	if len(newHelpers) > 0 && fn.Parent() == nil && newHelpers[fn] == nil {
+		for _, h := range helpersOf(fn) {
+			out = append(out, loopsOwn(h)...)
+		}
+	}
+	return out
+}
+
+func loopsOwn(fn *ssa.Function) []Loop {
 	fi := Info(fn)
 	m := map[*ssa.BasicBlock]*Loop{}
 	var order []*ssa.BasicBlock
